@@ -86,6 +86,16 @@ class BadDict(dict):
         return dict.__getitem__(self, k)
 
 
+class OsErrDict(dict):
+    """element access raises an OSError for the key 'bad' (a failure outside the lookup-error families)"""
+    __slots__ = ()
+
+    def __getitem__(self, k):
+        if k == 'bad':
+            raise OSError(5, 'device not ready')
+        return dict.__getitem__(self, k)
+
+
 class Obj:
     def __init__(self):
         pass
@@ -101,6 +111,16 @@ class FalsyObj(Obj):
 
     def __repr__(self):
         return 'FalsyObj(%s)' % ', '.join(sorted(self.__dict__))
+
+
+class NotImplObj(Obj):
+    """the attribute `bad` raises NotImplementedError"""
+    @property
+    def bad(self):
+        raise NotImplementedError('computed lazily elsewhere')
+
+    def __repr__(self):
+        return 'NotImplObj(%s)' % ', '.join(sorted(self.__dict__))
 
 
 class ZeroLenObj(Obj):
@@ -138,11 +158,11 @@ LEAVES = [1, 2, 'leaf', '', None, 2.5, 'a']
 def gen_graph(rng):
     """returns (root, nodes, n_edges, features)"""
     n = rng.randint(1, 8)
-    kinds = [rng.choice(['dict', 'dict', 'odict', 'list', 'list', 'obj', 'baddict', 'falsyobj', 'zerolenobj']) for _ in range(n)]
+    kinds = [rng.choice(['dict', 'dict', 'odict', 'list', 'list', 'obj', 'baddict', 'falsyobj', 'zerolenobj', 'oserrdict', 'notimplobj']) for _ in range(n)]
     nodes = []
     for k in kinds:
         nodes.append({'dict': dict, 'odict': OrderedDict, 'list': list, 'obj': Obj, 'baddict': BadDict, 'falsyobj': FalsyObj,
-                      'zerolenobj': ZeroLenObj}[k]())
+                      'zerolenobj': ZeroLenObj, 'oserrdict': OsErrDict, 'notimplobj': NotImplObj}[k]())
     edges = 0
     feats = set()
     extra = []     # immutable / one-shot nodes built from existing ones
@@ -315,7 +335,7 @@ def gen_steps(rng):
     n_named = rng.randint(0, 3)
     steps = [('x',) if rng.random() < 0.6 else ('X',) for _ in range(n_star)]
     for _ in range(n_named):
-        seg = rng.choice(KEYS[:5] + [0, 1])
+        seg = rng.choice(KEYS[:5] + [0, 1, 'bad'])     # ('bad': the element some nodes refuse with KeyError / OSError / NotImplementedError)
         steps.insert(rng.randint(0, len(steps)), ('seg', seg))
     return steps
 
@@ -376,6 +396,11 @@ def eval_case(col, counter, rng):
     except RefMiss:
         want = ('miss', None)
     except RecursionError:
+        return
+    except Exception:
+        # (a T-style step met an element whose access raises something that is not a lookup error: it propagates, in glom too;
+        # what that looks like belongs to C04)
+        col.count('cases_with_a_propagating_non_lookup_error')
         return
     counter.count = 0
     counter.limit = 10 * (n_nodes + n_edges + 2) ** max(n_star, 1) + 100
